@@ -910,11 +910,50 @@ Lemma dequeue_qprog q ch q' : dequeue q = (ch, q') ->
   | _ => qprog q' = qprog q
   end.
 Proof.
-  unfold dequeue. intros H.
-  destruct q as [a b p nx ot]. cbn [qnext qcp qdata qprog qout qready] in H.
-  destruct nx as [|[|[|nx]]]; cbn in H;
-    repeat match type of H with
-           | context [if ?x then _ else _] => destruct x eqn:?
-           end; inversion H; subst; cbn; auto;
-    repeat match goal with E : (_ && _) = true |- _ => apply andb_true_iff in E; destruct E end; auto.
+  unfold dequeue. cbv zeta. intros H.
+  assert (Hpick : forall i, qready q i = true ->
+            match i with
+            | O => (Some ChCp, mkq false (qdata q) (qprog q) 1 (qout q))
+            | S O => (Some ChData, mkq (qcp q) false (qprog q) 2 true)
+            | _ => (Some ChProg, mkq (qcp q) (qdata q) false 0 (qout q))
+            end = (ch, q') ->
+            match ch with
+            | Some ChProg => qprog q = true /\ qprog q' = false
+            | _ => qprog q' = qprog q
+            end).
+  { intros i Hr Hp. destruct i as [|[|i]]; inversion Hp; subst; cbn in *; auto. }
+  destruct (qready q (qnext q)) eqn:R0; [eapply Hpick; eassumption|].
+  destruct (qready q ((qnext q + 1) mod 3)%nat) eqn:R1; [eapply Hpick; eassumption|].
+  destruct (qready q ((qnext q + 2) mod 3)%nat) eqn:R2; [eapply Hpick; eassumption|].
+  inversion H; subst. reflexivity.
+Qed.
+
+(* ------------------------------------------------------------------ one step *)
+Definition mstep_inner (c : cfg) (m : mon) (x : op) (r : out) : verdict * mon :=
+  match x with
+  | WCp v => cp_step c m v r true
+  | WCpCmd v => cp_step c m v r false
+  | WData v => data_step c m v r true
+  | WDataCmd v => data_step c m v r false
+  | EndFlash | Run | Hvc | SetErr _ =>
+      match ost r with SNone => (Ok, m) | _ => (Bad t_shape, m) end
+  | Out =>
+      match ost r with
+      | SNone => (Ok, m)
+      | SNtf ChProg b => progress_step m b
+      | SNtf ChCp b => cp_ntf_step m b
+      | SInd ChData _ => (Ok, m)
+      | _ => (Bad t_shape, m)
+      end
+  | Rd ch =>
+      match ost r, ch with
+      | SVal b, ChProg => progress_step m b
+      | SVal _, _ => (Ok, m)
+      | _, _ => (Bad t_shape, m)
+      end
+  end.
+
+Lemma mstep_safe c m x r : out_safe c r -> mstep c m x r = mstep_inner c m x r.
+Proof.
+  intros [Hf Hc]. unfold mstep. rewrite Hc. cbn [negb].
 Show. Abort.
